@@ -4,10 +4,10 @@ package main
 // are registered under each of them (same construct keys, different rule ids).
 
 import (
-	"strings"
 	"fmt"
 	"go/token"
 	"go/types"
+	"strings"
 
 	"golang.org/x/tools/go/ssa"
 )
